@@ -11,13 +11,18 @@ def key_bytes(n=16):
     return [("key%02d" % i).encode() for i in range(n)]
 
 
-def run_db_batch(binary, name, cases, gates=False, seed=1, timeout=300, keys=None, env=None):
+def run_db_batch(binary, name, cases, gates=False, seed=1, timeout=300, keys=None, env=None, disk=False):
     """cases: list of step lists. Returns (trace_path, events). A crash / hang of the driver is an observable outcome of the code
     under test (background panic, dead-locked flusher): the trace written so far gets a final bgfail line."""
     work = common.scratch("db-" + name)
     trace = os.path.join(work, "trace.ndjson")
     keys = keys or key_bytes()
-    inp = {"keys": [k.hex() for k in keys], "dir": os.path.join(work, "d"), "cases": [{"steps": c} for c in cases], "gates": gates, "seed": seed}
+    ddir = os.path.join(work, "d")
+    if disk:
+        # O_DIRECT is refused by tmpfs: sessions with the direct-I/O WAL need a block-device file system (removed below)
+        import tempfile
+        ddir = tempfile.mkdtemp(prefix="verif-dio-", dir=os.environ.get("VERIF_DISK_SCRATCH", "/var/tmp"))
+    inp = {"keys": [k.hex() for k in keys], "dir": ddir, "cases": [{"steps": c} for c in cases], "gates": gates, "seed": seed}
     in_path = trace + ".in.json"
     with open(in_path, "w") as f:
         json.dump(inp, f)
@@ -32,7 +37,7 @@ def run_db_batch(binary, name, cases, gates=False, seed=1, timeout=300, keys=Non
         with open(trace, "a") as f:
             f.write(json.dumps({"t": "bgfail", "msg": msg[:600]}) + "\n")
     import shutil
-    shutil.rmtree(os.path.join(work, "d"), ignore_errors=True)
+    shutil.rmtree(ddir, ignore_errors=True)
     return trace
 
 
